@@ -6,5 +6,5 @@ CONSTANTS
   AddrsS = {0, 7, 9}
   WordVals = {0, 65535}
   Depth = 2
-  Tampers = {"none", "resp-integrity", "unit"}
-INVARIANTS ReadMatchesFile TamperedIsError
+  Tampers = {"none", "resp-integrity", "unit", "resp-late"}
+INVARIANTS ReadMatchesFile TamperedIsError LateIsError
